@@ -2,6 +2,7 @@ package vc
 
 import (
 	"bufio"
+	"crypto/sha1"
 	"fmt"
 	"go/ast"
 	"go/parser"
@@ -346,7 +347,9 @@ func parseClause(kind, rest, path string, line int) (*Clause, error) {
 		c.Label = m[2]
 		body = m[3]
 	} else {
-		c.Label = fmt.Sprintf("L%d", line)
+		// unlabelled clause: a name that survives moving the clause in the file
+		h := sha1.Sum([]byte(strings.Join(strings.Fields(body), " ")))
+		c.Label = fmt.Sprintf("u%x", h[:4])
 	}
 	c.Text = body
 	e, err := parser.ParseExpr(body)
